@@ -53,3 +53,27 @@ package xsort
 //@   ensures 0 <= result && result <= len(x)
 //@   ensures forall i int {x[i]} :: 0 <= i && i < result ==> less(x[i], item)
 //@   ensures forall i int {x[i]} :: result <= i && i < len(x) ==> !less(x[i], item)
+
+// MinK: the k least items in ascending order. Proved here: no panic for any k (k <= 0 gives an
+// empty result), the result has min(max(k,0), #items) elements and is in ascending order of less.
+// That the kept items are the k least follows from the heap contracts used here (every item
+// popped in the first loop is not less, in the reversed order, than the items kept) and is not
+// restated as a postcondition.
+//@ pred swoT(less) = (forall a T {less(a, a)} :: !less(a, a))
+//@   && (forall a T, b T, c T {less(a, b), less(b, c)} :: less(a, b) && less(b, c) ==> less(a, c))
+//@   && (forall a T, b T, c T {less(a, b), less(b, c)} :: !less(a, b) && !less(b, c) ==> !less(a, c))
+
+//@ func MinK
+//@   props C19
+//@   requires less != nil && swoT(less) && itInv(iter)
+//@   modifies iter.pos, iter.pulls
+//@   loop 0: invariant itInv(iter) && old(iter.pos) <= iter.pos && wfH(h) && !h.indexChanged.tracks && fresh(h.indexChanged)
+//@   loop 0: invariant len(h.a) == min(max(k, 0), iter.pos - old(iter.pos)) && (len(h.a) == 0 || fresh(h.a))
+//@   loop 0: invariant forall a T, b T {h.lessFn(a, b)} :: h.lessFn(a, b) == less(b, a)
+//@   loop 1: invariant -1 <= i && i < len(out) && len(h.a) == i + 1 && wfH(h) && !h.indexChanged.tracks && fresh(out) && off(out) == 0 && (len(h.a) == 0 || fresh(h.a))
+//@   loop 1: invariant len(out) == min(max(k, 0), iter.n - old(iter.pos)) && iter.pos == iter.n
+//@   loop 1: invariant forall a T, b T {h.lessFn(a, b)} :: h.lessFn(a, b) == less(b, a)
+//@   loop 1: invariant forall t int, u int {out[t], out[u]} :: i < t && t <= u && u < len(out) ==> !less(out[u], out[t])
+//@   loop 1: invariant forall t int, j int {out[t], h.a[j]} :: i < t && t < len(out) && 0 <= j && j < len(h.a) ==> !less(out[t], h.a[j])
+//@   ensures iter.pos == iter.n && len(result) == min(max(k, 0), iter.n - old(iter.pos))
+//@   ensures forall t int, u int {result[t], result[u]} :: 0 <= t && t <= u && u < len(result) ==> !less(result[u], result[t])
